@@ -581,6 +581,13 @@ class SArray:
     def transpose(self, *axes):
         return SArray(self.a.transpose(*axes), self.dtype)
 
+    def swapaxes(self, a1, a2):
+        return SArray(self.a.swapaxes(a1, a2), self.dtype)
+
+    @property
+    def T(self):
+        return SArray(self.a.T, self.dtype)
+
     def squeeze(self, axis=None):
         return SArray(self.a.squeeze(axis), self.dtype)
 
@@ -947,6 +954,18 @@ def h_moveaxis(a, source, destination):
     return SArray(real_np.moveaxis(a.a, source, destination), a.dtype)
 
 
+def h_swapaxes(a, axis1, axis2):
+    return SArray(real_np.swapaxes(a.a, axis1, axis2), a.dtype)
+
+
+def h_rollaxis(a, axis, start=0):
+    return SArray(real_np.rollaxis(a.a, axis, start), a.dtype)
+
+
+def h_atleast_3d(a):
+    return SArray(real_np.atleast_3d(a.a), a.dtype)
+
+
 def h_transpose(a, axes=None):
     return SArray(real_np.transpose(a.a, axes), a.dtype)
 
@@ -1248,7 +1267,7 @@ HANDLERS = dict(unique=h_unique, argmax=h_argmax, pad=h_pad, array_equal=h_array
                 flip=h_flip, squeeze=h_squeeze, expand_dims=h_expand_dims,
                 concatenate=h_concatenate, stack=h_stack, append=h_append, clip=h_clip,
                 any=h_any, all=h_all, sum=h_sum, dot=h_dot, can_cast=h_can_cast, shape=h_shape,
-                ndim=h_ndim, size=h_size, copy=h_copy, insert=h_insert, savetxt=h_savetxt,
+                ndim=h_ndim, size=h_size, copy=h_copy, insert=h_insert, savetxt=h_savetxt, swapaxes=h_swapaxes, rollaxis=h_rollaxis, atleast_3d=h_atleast_3d,
                 iscomplexobj=h_iscomplexobj, broadcast_to=h_broadcast_to)
 
 
